@@ -243,6 +243,19 @@ func IsValidBucketName(bucket string, debug bool) bool {
 		debuglogger.Logf("bucket name is an ip address: %v\n", bucket)
 		return false
 	}
+	// Checks not to use one of the reserved prefixes or suffixes
+	switch {
+	case strings.HasPrefix(bucket, "xn--"),
+		strings.HasPrefix(bucket, "sthree-"),
+		strings.HasPrefix(bucket, "amzn-s3-demo-"),
+		strings.HasSuffix(bucket, "-s3alias"),
+		strings.HasSuffix(bucket, "--ol-s3"),
+		strings.HasSuffix(bucket, ".mrap"),
+		strings.HasSuffix(bucket, "--x-s3"),
+		strings.HasSuffix(bucket, "--table-s3"):
+		debuglogger.Logf("bucket name uses a reserved prefix or suffix: %v\n", bucket)
+		return false
+	}
 	return true
 }
 
